@@ -490,7 +490,7 @@ func runCheck() int {
 		Assumptions: append([]string{}, spec.Assumptions...)}
 	ev.Coverage = map[string]any{
 		"explanation":        spec.Explanation,
-		"decided_clauses":    spec.Decided,
+		"decided_clauses":    decidedClauses(spec),
 		"not_decided":        spec.NotDecided,
 		"obligations":        len(all),
 		"discharged":         discharged,
